@@ -1,8 +1,11 @@
 #!/bin/sh
 # runs every registered check once (tier from $1, default quick) and prints a summary line per property
 TIER=${1:-quick}
+ROOT=$(dirname "$(readlink -f "$0")")
+LOGS="$ROOT/sim/target/run_all_logs"
+mkdir -p "$LOGS"
 for p in C01 C02 C03 C04 C05 C06 C07 C08 C09 C10 C11 C12 C13 C14 C15 C16 C17 C18; do
-  "$(dirname "$(readlink -f "$0")")/check" $p --tier $TIER > /tmp/run_all_$p.log 2>&1; rc=$?
-  echo "$p exit=$rc $(grep -E "^C[0-9]+: " /tmp/run_all_$p.log | cut -c1-160)"
-  grep -E "^(VIOLATION|HARNESS-ERROR)" /tmp/run_all_$p.log | head -3
+  "$(dirname "$(readlink -f "$0")")/check" $p --tier $TIER > "$LOGS/$p.log" 2>&1; rc=$?
+  echo "$p exit=$rc $(grep -E "^C[0-9]+: " "$LOGS/$p.log" | cut -c1-160)"
+  grep -E "^(VIOLATION|HARNESS-ERROR)" "$LOGS/$p.log" | head -3
 done
